@@ -797,6 +797,9 @@ func run(c *engine.Ctx) {
 	defer cleanupFixture()
 	defer env.ClearNow()
 
+	// the process lives in a zone west of UTC (times written without a zone are UTC whatever the zone of the host is)
+	time.Local = time.FixedZone("verif-west", -8*3600)
+
 	thorough := !c.Quick()
 	depth := 3
 
@@ -937,6 +940,8 @@ func bfsCell(c *engine.Ctx, cell Cell, depth int, thorough bool) {
 func replay(c *engine.Ctx, raw json.RawMessage) {
 	defer cleanupFixture()
 	defer env.ClearNow()
+
+	time.Local = time.FixedZone("verif-west", -8*3600)
 
 	var cs Case
 	if err := json.Unmarshal(raw, &cs); err != nil {
